@@ -112,7 +112,7 @@ func init() {
 		return Ite(Cmp(OpSlt, a, b), BV(64, ^uint64(0)), Ite(Eq(a, b), BV(64, 0), BV(64, 1)))
 	})
 	reg("(time.Time).IsZero", func(th *Thread, fr *frame, fn *ssa.Function, args []Value) Value {
-		return Eq(timeExt(args[0]), BV(64, 0))
+		return Eq(timeExt(args[0]), IntC(0))
 	})
 	reg("(time.Time).UnixNano", func(th *Thread, fr *frame, fn *ssa.Function, args []Value) Value {
 		return timeExt(args[0])
@@ -139,10 +139,10 @@ func init() {
 			th.schedPoint(nil, "Sleep")
 			return nil
 		}
-		nc := p.freshVar("clock", 64)
+		nc := p.freshVar("clock", IntW)
 		p.assume(Cmp(OpSle, Bin(OpAdd, p.clock, args[0].(*Term)), nc))
-		p.assume(Cmp(OpUle, p.clock, nc))
-		p.assume(Cmp(OpUle, nc, BV(64, 1<<62)))
+		p.assume(Cmp(OpSle, p.clock, nc))
+		p.assume(Cmp(OpSle, nc, IntC(1<<62)))
 		p.clock = nc
 		th.schedPoint(nil, "Sleep")
 		return nil
